@@ -4,6 +4,6 @@ p=$(readlink -f "$1"); shift
 git -C /repo apply "$p" || { echo "patch does not apply"; exit 2; }
 for id in "$@"; do
   out=$(cd /verif && ./check $id quick 2>&1); code=$?
-  echo "== $id exit=$code: $(echo "$out" | grep -c '^VIOLATION') violation(s); $(echo "$out" | grep -m1 'sig=' | cut -c1-200)"
+  echo "== $id exit=$code: $(echo "$out" | grep -a -c '^VIOLATION') violation(s); $(echo "$out" | grep -a -m1 'sig=' | cut -c1-200)"
 done
 git -C /repo checkout -- .
